@@ -7,6 +7,8 @@ import (
 	"time"
 
 	"github.com/fsnotify/fsnotify"
+
+	"github.com/bluenviron/mediamtx/internal/verifhook"
 )
 
 const (
@@ -76,6 +78,8 @@ outer:
 	for {
 		select {
 		case event := <-w.inner.Events:
+			verifhook.Event("confwatcher.event", event.Name, event.Op.String())
+
 			if time.Since(lastCalled) < minInterval {
 				continue
 			}
